@@ -24,6 +24,28 @@ pub fn cleanup_work() {
     let _ = std::fs::remove_dir_all(work_root());
 }
 
+/// Analyse `main` (given as a string) with the named files laid out in one fresh directory that is
+/// passed as the only search path. Used by the include-split variants of C06/C07.
+pub fn analyze_with_files(main: &str, files: &[(String, String)]) -> Result<crate::pipeline::Analysis, PanicInfo> {
+    // one directory per worker thread, files overwritten per case (the main text only names files
+    // written for this case)
+    thread_local! {
+        static DIR: PathBuf = {
+            let id = CASE_ID.fetch_add(1, Ordering::Relaxed);
+            let root = work_root().join(format!("s{id}"));
+            let _ = std::fs::create_dir_all(&root);
+            root
+        };
+    }
+    let root = DIR.with(|d| d.clone());
+    for (n, body) in files {
+        let _ = std::fs::write(root.join(n), body);
+    }
+    let _g = ENV_LOCK.read().unwrap();
+    let dirs = [root];
+    guarded(|| parse_source_string_with_path_search(main, Some("main.qasm"), Some(&dirs[..])))
+}
+
 #[derive(Clone, Debug)]
 pub struct FileSpec {
     /// name as written in include statements (may contain a sub directory)
